@@ -52,44 +52,41 @@ theorem phase2_eq_specRun (P : Parser) :
       | cont s' => simpa [ha] using ih s' _ hrest
       | abort s' e => simp [ha]
 
-/-- the whole text (after the comment cut) is a statement that `execute_program` handles before
-    `query_program` gets to validate the lines -/
-def intercepted (P : Parser) (w : World) (rq : Req) : Bool :=
-  match parseStatement P (trim rq.text) with
-  | none => false
-  | some st =>
-    (startsWithChar '.' (trim rq.text) &&
-      (st.kind == .sessionClear || st.kind == .userList || st.kind == .kgAclList || st.kind == .kgAclGrant || st.kind == .kgAclRevoke))
-    || ((sessOf w rq).isSome && (st.kind == .sessionRule || st.kind == .fact))
-
-/-- a `?…` request on a session that holds ephemeral facts/rules takes the slow path of
-    `query_program_with_session`, which does not go through phase 1 -/
-def slowPath (w : World) (rq : Req) : Bool :=
-  startsWithChar '?' (trim rq.text) &&
-  match (sessOf w rq) with
-  | some se => !se.closed && !(se.facts.isEmpty && se.rules.isEmpty)
-  | none => false
+theorem singleLine_parse_none (P : Parser) (text : List Char) (l : List Char)
+    (h : hasSyntaxError P text = true) (hl : logicalLines text = [l]) : parseStatement P l = none := by
+  unfold hasSyntaxError at h
+  rw [hl] at h
+  simpa using h
 
 theorem queryWithSession_reject (P : Parser) (w : World) (u : String) (text : List Char)
-    (h : hasSyntaxError P text = true)
-    (hs : (match findSess w u with | some se => !se.closed && !(se.facts.isEmpty && se.rules.isEmpty) | none => false) = false) :
+    (h : hasSyntaxError P text = true) :
     (queryWithSession P w u text).w = w ∧ isErr (queryWithSession P w u text).res = true := by
   unfold queryWithSession
   have q := fun k => query_reject_no_effect P w k text h
   split
   · exact ⟨(q none).1, (q none).2.1⟩
   · rename_i se hse
-    rw [hse] at hs
-    by_cases hc : se.closed = true
-    · simp only [hc, if_true]; exact ⟨(q none).1, (q none).2.1⟩
-    · by_cases hcl : (se.facts.isEmpty && se.rules.isEmpty) = true
-      · simp only [hc, hcl]; exact ⟨(q (some se.kg)).1, (q (some se.kg)).2.1⟩
-      · simp [hc, hcl] at hs
+    split
+    · exact ⟨(q none).1, (q none).2.1⟩
+    · split
+      · exact ⟨(q (some se.kg)).1, (q (some se.kg)).2.1⟩
+      · simp only []
+        split
+        · simp [isErr]
+        · split
+          · simp [isErr]
+          · split
+            · rename_i l hl
+              have hp := singleLine_parse_none P text l h hl
+              split
+              · simp [isErr]
+              · rw [hp]; simp [isErr]
+            · simp [isErr]
 
 theorem postProcess_err (w : World) (role : Option (String × Role)) (whole : Option Stmt) (sraw : Option Sess) (r : Out)
     (h : isErr r.res = true) :
     (postProcess w role whole sraw r).w = r.w ∧ isErr (postProcess w role whole sraw r).res = true := by
-  unfold postProcess
+  unfold postProcess postCore
   cases hres : r.res with
   | err e => simp [isErr]
   | msgs m sw => simp [hres, isErr] at h
@@ -108,11 +105,7 @@ theorem sessionIntercept_some (w : World) (sraw : Option Sess) (whole : Option S
   · cases h
 
 theorem queryPath_reject (P : Parser) (w : World) (rq : Req) (role : Option (String × Role)) (whole : Option Stmt)
-    (sraw : Option Sess)
-    (h : hasSyntaxError P rq.text = true)
-    (hs : ∀ se, sraw = some se → startsWithChar '?' (trim rq.text) = true →
-            (!se.closed && !(se.facts.isEmpty && se.rules.isEmpty)) = false)
-    (hsr : ∀ se, sraw = some se → findSess w se.user = some se) :
+    (sraw : Option Sess) (h : hasSyntaxError P rq.text = true) :
     (queryPath P w rq role whole sraw).w = w ∧ isErr (queryPath P w rq role whole sraw).res = true := by
   unfold queryPath
   have q := fun k => query_reject_no_effect P w k rq.text h
@@ -133,28 +126,26 @@ theorem queryPath_reject (P : Parser) (w : World) (rq : Req) (role : Option (Str
                (postProcess_err w role whole _ _ (q effKg).2.1).2⟩
       | some se =>
         simp only []
-        have hd := hs se hsr' hq
-        have hq2 := queryWithSession_reject P w se.user rq.text h (by rw [hsr se hsr']; exact hd)
+        have hq2 := queryWithSession_reject P w se.user rq.text h
         have := postProcess_err w role whole (some se) _ hq2.2
         exact ⟨this.1.trans hq2.1, this.2⟩
 
-theorem execRest_reject (P : Parser) (w : World) (rq : Req) (role : Option (String × Role)) (whole : Option Stmt)
-    (sraw : Option Sess) (curKg : Option String)
-    (h : hasSyntaxError P rq.text = true)
-    (hi : sraw.isSome = true → ∀ st, whole = some st → st.kind ≠ .sessionRule ∧ st.kind ≠ .fact)
-    (hs : ∀ se, sraw = some se → startsWithChar '?' (trim rq.text) = true →
-            (!se.closed && !(se.facts.isEmpty && se.rules.isEmpty)) = false)
-    (hsr : ∀ se, sraw = some se → findSess w se.user = some se) :
-    (execRest P w rq role whole sraw curKg).w = w ∧
-    isErr (execRest P w rq role whole sraw curKg).res = true := by
+/-- with no single statement to intercept, `execRest` is the (validating) query path -/
+theorem execRest_reject (P : Parser) (w : World) (rq : Req) (role : Option (String × Role))
+    (sraw : Option Sess) (curKg : Option String) (h : hasSyntaxError P rq.text = true) :
+    (execRest P w rq role none sraw curKg).w = w ∧ isErr (execRest P w rq role none sraw curKg).res = true := by
   unfold execRest
-  cases hsi : sessionIntercept w sraw whole curKg with
-  | some o =>
-    rcases sessionIntercept_some w sraw whole curKg o hsi with ⟨h1, st, h2, h3⟩
-    rcases h3 with h3 | h3
-    · exact absurd h3 (hi h1 st h2).1
-    · exact absurd h3 (hi h1 st h2).2
-  | none => exact queryPath_reject P w rq role whole sraw h hs hsr
+  have : sessionIntercept w sraw none curKg = none := by
+    unfold sessionIntercept; cases sraw <;> rfl
+  rw [this]
+  exact queryPath_reject P w rq role none sraw h
+
+theorem singleStmt_none (P : Parser) (text : List Char) (h : hasSyntaxError P text = true) :
+    singleStmt P text = none := by
+  unfold singleStmt
+  split
+  · rename_i l hl; exact singleLine_parse_none P text l h hl
+  · rfl
 
 theorem sraw_found (w : World) (rq : Req) (se : Sess)
     (h : (sessOf w rq) = some se) : findSess w se.user = some se := by
